@@ -103,7 +103,7 @@ def _payloads(ctx: Any, dpt: Any) -> list[Any]:
                 p = [0xFF] * n
                 p[pos] = v
                 out.append(p)
-    for _ in range(ctx.scale(40, 20000)):
+    for _ in range(ctx.scale(40, 6000)):
         out.append([rng.choice((0, 1, 0x7F, 0x80, 0xFF, rng.randrange(256), rng.randrange(256))) for _ in range(n)])
     return out
 
@@ -120,7 +120,7 @@ async def _inverse_for_class(ctx: Any, dpt: Any, payloads: list[Any]) -> None:
     vts = [dpt.dpt_number_str()] + ([dpt.value_type] if dpt.value_type else [])
     kind = "numeric" if issubclass(dpt, DPTNumeric) else "enum" if issubclass(dpt, DPTEnum) else "complex" if issubclass(dpt, DPTComplex) else "text"
     for i, payload in enumerate(payloads):
-        vt = vts[i % len(vts)]
+        vt = vts[0] if i % 8 == 0 else vts[-1]  # both spellings; the name resolves faster
         ctx.ev()
         wit = {"dpt": name, "value_type": vt, "payload": payload}
         try:
